@@ -98,6 +98,11 @@ pub trait Prop: Sync + Send + 'static {
     fn cases(&self, tier: Tier) -> u32;
     /// run the oracle on one case
     fn check(&self, case: &Self::Case) -> Obs;
+    /// how many shrinking steps a failure may take (each one runs the check again; parts whose
+    /// cases start processes or real connections keep this small)
+    fn max_shrink_iters(&self) -> u32 {
+        1500
+    }
     /// a single case that runs longer than this is a hang (see `hang_is_violation`)
     fn case_time_limit_s(&self) -> u64 {
         300
@@ -477,7 +482,7 @@ impl<P: Prop> Part for PropPart<P> {
                         let config = Config {
                             cases: n,
                             failure_persistence: None,
-                            max_shrink_iters: 1500,
+                            max_shrink_iters: prop.max_shrink_iters(),
                             max_global_rejects: 65536,
                             ..Config::default()
                         };
